@@ -18,7 +18,8 @@ RULE = (
     "renormalisation-scale variation O[(2,0,1,0)] = -(11-2nf/3) O[(1,0,0,0)] entrywise; (gluon) the NLO gluon row is "
     "proportional to sum_{q<=nf} e_q^2 across a threshold; (meta) two ZM-VFNS cards with different masses/ratios "
     "but equal reference nf at a point give bitwise equal outputs for it (PTO 1, or PTO 2 with both scale variations; card 1 computes all 1-4 points - which may "
-    "lie in different nf regions - in one run, card 2 each point in a run of its own). Non-trivial = some Q2 within one ulp of a matching scale."
+    "lie in different nf regions - in one run, card 2 each point in a run of its own); (rows2) ZM-VFNS, EM/NC F2/FL of any heavyness at PTO 2: the non-zero quark "
+    "rows of the O(as^2) tensor are exactly +-1..+-nf (the pure-singlet kernel reaches every active quark), or none when the tagged quark is not active. Non-trivial = some Q2 within one ulp of a matching scale."
 )
 ASSUMPTIONS = [
     "matching scales are generated in the natural order mu_c < mu_b < mu_t (eko's nf_default is defined for that order only)",
@@ -26,7 +27,7 @@ ASSUMPTIONS = [
 ]
 BUDGET = {"quick": {"examples": 2400, "wall": 300}, "thorough": {"examples": 120000, "wall": 2400}}
 MANDATORY = {
-    t: ["nontrivial", "clause:lo", "clause:beta", "clause:gluon", "clause:meta", "meta:pto2+scale-variations", "meta:run-spans-several-nf", "at:charm", "at:bottom", "at:top",
+    t: ["nontrivial", "clause:lo", "clause:beta", "clause:gluon", "clause:meta", "clause:rows2", "rows2:tagged-below-heavier-active-quark", "meta:pto2+scale-variations", "meta:run-spans-several-nf", "at:charm", "at:bottom", "at:top",
         "below:charm", "below:bottom", "below:top", "above:charm", "scheme:ZM-VFNS", "scheme:FFNS", "scheme:FFN0",
         "scheme:FONLL-FFNS", "scheme:FONLL-FFN0"]
     for t in ("quick", "thorough")
@@ -61,8 +62,8 @@ def q2_near(draw, th):
 
 @st.composite
 def cases(draw, tier="quick"):
-    clause = draw(st.sampled_from(["lo", "lo", "beta", "gluon", "meta"]))
-    scheme = "ZM-VFNS" if clause in ("gluon", "meta") else draw(st.sampled_from(cards.SCHEMES))
+    clause = draw(st.sampled_from(["lo", "lo", "beta", "gluon", "meta", "rows2"]))
+    scheme = "ZM-VFNS" if clause in ("gluon", "meta", "rows2") else draw(st.sampled_from(cards.SCHEMES))
     th = cards.theory(FNS=scheme, NfFF=draw(st.integers(3, 5)))
     th.update(draw(cards.masses(dyadic=draw(st.booleans()))))
     if draw(st.booleans()):  # two-decimal masses as users write them
@@ -86,6 +87,10 @@ def cases(draw, tier="quick"):
         case["kind"] = draw(st.sampled_from(["F2", "FL", "F3"]))
         case["process"] = draw(st.sampled_from(["EM", "NC", "CC"]))
         case["heavyness"] = draw(st.sampled_from(["light", "total"]))
+    if clause == "rows2":
+        case["kind"] = draw(st.sampled_from(["F2", "FL"]))
+        case["process"] = draw(st.sampled_from(["EM", "NC"]))
+        case["heavyness"] = draw(st.sampled_from(["total", "light", "charm", "charm", "bottom", "bottom", "top"]))
     case["meta"] = {"scheme": scheme}
     return case
 
@@ -132,6 +137,24 @@ def check_case(case):
                 v.fail(f"C06:beta0:{th['FNS']}", f"O(2,0,1,0) != -beta0(nf={nf}) O(1,0,0,0): |d|={d:.3e}, fits nf={fit} (Q2={kin['Q2']!r}, {where})")
             if s == 0:
                 v.label("beta:zero")
+    elif cl == "rows2":
+        # beyond LO: at O(as^2) the pure-singlet kernel reaches every active quark, whatever quark the boson couples to - the non-zero
+        # quark rows of the NNLO tensor are exactly the nf active flavours (none if the tagged quark itself is not active yet)
+        t = dict(th, PTO=2, RenScaleVar=False, FactScaleVar=False)
+        ob["prDIS"] = case["process"]
+        name = f"{case['kind']}_{case['heavyness']}"
+        ihq = {"charm": 4, "bottom": 5, "top": 6}.get(case["heavyness"], 0)
+        v.label(f"rows2:{'tagged' if ihq else 'inclusive'}")
+        ob["observables"] = {name: kins}
+        res = run.run(t, ob)[name]
+        for r, nf, kin, where in zip(res, nfs, kins, case["where"]):
+            tt = run.tensors(r)[(2, 0, 0, 0)]
+            rows = sorted(run.PIDS[i] for i in range(14) if np.any(tt[i] != 0) and run.PIDS[i] not in (21, 22))
+            exp = [] if ihq > nf else sorted([q for q in range(1, nf + 1)] + [-q for q in range(1, nf + 1)])
+            if ihq and nf > ihq:
+                v.label("rows2:tagged-below-heavier-active-quark")
+            if rows != exp:
+                v.fail(f"C06:nnlo-rows:{'tagged' if ihq else 'inclusive'}", f"{name} ({case['process']}): quark rows of the O(as^2) tensor {rows} but nf_ref={nf} (Q2={kin['Q2']!r}, {where}, thresholds {thresholds(th)})")
     elif cl == "gluon":
         t = dict(th, PTO=1)
         # same x for all points; compare gluon rows pairwise
